@@ -47,7 +47,14 @@ pub fn conv_case<T: Sc>(rng: &mut Rng, idx: usize) -> (FitCase<T>, Vec<T>, DMatr
     let tr: Vec<T> = truth.iter().map(|v| T::of(*v)).collect();
     let phi = recipe.phi::<T>(&tr);
     let m = recipe.m();
-    let s = if rng.chance(0.3) { rng.range(2, 4) } else { 1 };
+    // one case in twelve has MANY right-hand sides (sizes next to plausible block widths)
+    let s = if rng.chance(0.085) {
+        *rng.pick(&[31usize, 33, 40, 65, 70])
+    } else if rng.chance(0.3) {
+        rng.range(2, 4)
+    } else {
+        1
+    };
     let tail = fam.name.contains("tail");
     let noise_rel = if rng.chance(0.5) { 0.0 } else if tail { *rng.pick(&[1e-4, 1e-3]) } else { *rng.pick(&[1e-4, 1e-3, 1e-2]) };
     let mut y = DMatrix::from_element(n, s, T::of(0.0));
@@ -85,6 +92,39 @@ pub fn conv_case<T: Sc>(rng: &mut Rng, idx: usize) -> (FitCase<T>, Vec<T>, DMatr
     };
     let threads = if flavour.is_par() { 2 } else { 0 };
     (FitCase { base, cfg: LmCfg::default_cfg(), threads }, tr, ctrue, noise_rel, fam.name)
+}
+
+/// Kaufman Jacobian of the weighted residuals computed by the harness itself (f64, from the recipe's
+/// tables at the parameters the fit reports): column k = vec(−(1 − U Uᵀ)·W D_k·C) with C the
+/// least-squares coefficients.  Independent of the library's `jacobian()`.
+pub fn reference_jacobian<T: Sc>(recipe: &Recipe, alpha: &[T], w: &Option<Vec<T>>, y: &DMatrix<T>) -> Option<DMatrix<f64>> {
+    let n = recipe.n();
+    let wf: Vec<f64> = match w {
+        Some(w) => w.iter().map(|v| v.f()).collect(),
+        None => vec![1.0; n],
+    };
+    let scale = |m: DMatrix<T>| -> DMatrix<f64> { DMatrix::from_fn(m.nrows(), m.ncols(), |i, j| m[(i, j)].f() * wf[i]) };
+    let a = scale(recipe.phi::<T>(alpha));
+    let yw = DMatrix::from_fn(y.nrows(), y.ncols(), |i, j| y[(i, j)].f() * wf[i]);
+    if !a.iter().all(|v| v.is_finite()) {
+        return None;
+    }
+    let svd = a.clone().svd(true, true);
+    let c = svd.solve(&yw, 1e-13 * svd.singular_values.max()).ok()?;
+    let u = svd.u.as_ref()?;
+    let s = y.ncols();
+    let p = recipe.p();
+    let mut j = DMatrix::from_element(n * s, p, 0.0);
+    for k in 0..p {
+        let dkc = scale(recipe.dphi::<T>(alpha, k)) * &c;
+        let blk = u * (u.transpose() * &dkc) - &dkc;
+        for col in 0..s {
+            for i in 0..n {
+                j[(i + col * n, k)] = blk[(i, col)];
+            }
+        }
+    }
+    Some(j)
 }
 
 fn ssq<T: Sc>(r: &DVector<T>) -> f64 {
@@ -134,7 +174,9 @@ pub fn emit_conv_case<T: Sc>(out: &mut Out, idx: usize, rng: &mut Rng) {
         Some(Err(m)) => out.line(&format!("result panic {}", m)),
         Some(Ok(f)) => {
             let res = f.problem.res();
-            let jac = f.problem.jac();
+            // the Jacobian of the property is the Kaufman Jacobian at the returned parameters, computed
+            // here independently of the library (a defective library Jacobian must not judge itself)
+            let jac = reference_jacobian::<T>(&c.recipe, f.nonlinear.as_slice(), &c.w, &c.y);
             let ssq_fit = res.as_ref().map(|r| ssq(r));
             // orthogonality: cos angle between each Jacobian column and the residual
             let mut maxcos = 0.0f64;
@@ -142,8 +184,8 @@ pub fn emit_conv_case<T: Sc>(out: &mut Out, idx: usize, rng: &mut Rng) {
                 let rn = ssq(r).sqrt();
                 for k in 0..j.ncols() {
                     let col = j.column(k);
-                    let cn: f64 = col.iter().map(|v| v.f() * v.f()).sum::<f64>().sqrt();
-                    let dot: f64 = col.iter().zip(r.iter()).map(|(a, b)| a.f() * b.f()).sum();
+                    let cn: f64 = col.iter().map(|v| v * v).sum::<f64>().sqrt();
+                    let dot: f64 = col.iter().zip(r.iter()).map(|(a, b)| a * b.f()).sum();
                     if cn > 0.0 && rn > 0.0 {
                         maxcos = maxcos.max((dot / (cn * rn)).abs());
                     }
